@@ -6,7 +6,7 @@ from harness.props import _copy, _d822
 
 from debian_inspector import copyright as dc, deb822
 
-BLANKS = ['', ' ', '  ', '\t', ' \t']
+BLANKS = ['', ' ', '  ', '\t', ' \t', '', ' ', '\xa0', '\x0c', ' \u3000', '\x0b ', '\u2003\t']
 
 
 def eligible(lines):
